@@ -27,8 +27,14 @@ func Clone(n *Node) *Node {
 // returning true - harness-level shrinking on top of the library's, which works on
 // the random bit stream and shrinks recursive structures poorly. fails must not
 // modify the tree it is given.
+// minimizeRuns is the number of minimisations left in this process (see MinimizeToks).
+var minimizeRuns = 40
+
 func Minimize(tree *Node, fails func(*Node) bool) *Node {
 	cur := Clone(tree)
+	if minimizeRuns--; minimizeRuns < 0 {
+		return cur
+	}
 	for changed := true; changed; {
 		changed = false
 		var try func(n *Node, set func(*Node)) bool
@@ -62,8 +68,16 @@ func Minimize(tree *Node, fails func(*Node) bool) *Node {
 // The number of trials is bounded (more trials for short sequences, at least 200): a
 // violation that needs one exact large size cannot be shrunk, and trying to would cost
 // a quadratic number of expensive evaluations.
+//
+// A defect that makes very many cases fail (say, one that depends on what an earlier
+// call did) would have each of them minimised in turn: after minimizeRuns minimisations
+// in one process further cases are reported as they are (the smallest case per
+// sub-check is kept anyway).
 func MinimizeToks(toks []Tok, fails func([]Tok) bool) []Tok {
 	cur := append([]Tok(nil), toks...)
+	if minimizeRuns--; minimizeRuns < 0 {
+		return cur
+	}
 	budget := 200
 	if len(toks) > 0 && 400000/len(toks) > budget {
 		budget = 400000 / len(toks)
